@@ -1,8 +1,11 @@
 (* Property C13: oracle registry one-to-one; stake recoverable; only missed signing is slashed.
    Model: model/M_OracleReg.v (transcription of x/crosschain/keeper msg_server.go, oracle.go, proposal.go,
    delegate.go, abci.go, confirm.go); proofs: proofs/P_OracleReg{,2,3}.v.
-   Two parts of the property are FALSE of the code (and of the faithful model): see the *_refuted
-   theorems, docs/findings/C13-1.md and C13-2.md; next to each stands the strongest true statement. *)
+   One part of the property is FALSE of the code (and of the faithful model): recorded stake = delegated
+   stake (finding C13-2, docs/findings/C13-2.md; C13_stake_backed_refuted next to the strongest true
+   statement C13_stake_accounting).  A second one (C13-1, the stake of a removed oracle could not be
+   withdrawn) has been fixed in /repo; the model follows the source through gen/Gen_OracleSlash.v, the
+   property is proved for the fixed variant (C13_unbond_once) and refuted for the pre-fix variant. *)
 From Coq Require Import ZArith List Bool.
 From FxV Require Import gen.Gen_OracleSlash model.M_OracleReg proofs.P_OracleReg proofs.P_OracleReg2 proofs.P_OracleReg3.
 Import ListNotations.
@@ -153,8 +156,10 @@ Theorem C13_unbond_pays_once : forall s a s', step s (Unbond a) = Ok s' ->
 Proof. exact unbond_spec. Qed.
 Print Assumptions C13_unbond_pays_once.
 
-(*    ... but, the test being the wrong way round, it is accepted only while stake is still in the
-      unbonding queue (finding C13-1) *)
+(*    REFUTATION OF THE PRE-FIX VARIANT (finding C13-1, fixed in /repo by f3a025e): with the test the other
+      way round ([unbond_needs_entry = true], `err != nil { return nil, err }`) the call is accepted only
+      while stake is still in the unbonding queue.  The next five statements speak about that variant only;
+      on the current tree their hypothesis is false. *)
 Theorem C13_unbond_refused_without_pending_entry : unbond_needs_entry = true -> forall s a,
   (forall u, In u (ubds s) -> u_orc u <> a) -> forall s', step s (Unbond a) <> Ok s'.
 Proof. exact unbond_refused_without_pending_entry. Qed.
@@ -192,14 +197,44 @@ Theorem C13_unbond_before_maturity_refuted : unbond_needs_entry = true -> exists
 Proof. exact unbond_before_maturity_refuted. Qed.
 Print Assumptions C13_unbond_before_maturity_refuted.
 
-(*    ... and the intended behaviour, for a tree with the test turned round (the proposed patch) *)
-Theorem C13_unbond_after_maturity_accepted_if_fixed : unbond_needs_entry = false ->
+(*    THE PROPERTY, for the tree as it reads since the C13-1 fix ([unbond_needs_entry = false], re-read from
+      UnbondedOracle on every run): after governance removal, once nothing of the oracle is left in the
+      unbonding queue, the withdrawal is accepted, pays delegate balance - penalty, burns the penalty,
+      deletes the record and both index entries, and cannot be repeated; while stake is still in the queue
+      it is refused (nothing can be forfeited any more) *)
+Theorem C13_unbond_once : unbond_needs_entry = false ->
   forall s a r, recs s a = Some r -> ~ In a (proposal s) -> o_online r = false ->
   (forall u, In u (ubds s) -> u_orc u <> a) ->
   (0 < slash_amount r (p_fraction (prm s)) -> slash_amount r (p_fraction (prm s)) <= bal_d s a) ->
-  exists s', step s (Unbond a) = Ok s'.
-Proof. exact unbond_after_maturity_accepted_if_fixed. Qed.
-Print Assumptions C13_unbond_after_maturity_accepted_if_fixed.
+  exists s', step s (Unbond a) = Ok s' /\
+    bal_o s' a = bal_o s a + (bal_d s a - slash_amount r (p_fraction (prm s))) /\
+    bal_d s' a = 0 /\ burned s' = burned s + slash_amount r (p_fraction (prm s)) /\
+    recs s' a = None /\ by_bridger s' (o_bridger r) = None /\ by_ext s' (o_ext r) = None /\
+    (forall s'', step s' (Unbond a) <> Ok s'').
+Proof. exact unbond_once_if_fixed. Qed.
+Print Assumptions C13_unbond_once.
+
+Theorem C13_unbond_refused_while_pending : unbond_needs_entry = false ->
+  forall s a r, recs s a = Some r -> has_ubd a (o_val r) (ubds s) = true -> forall s', step s (Unbond a) <> Ok s'.
+Proof. exact unbond_refused_while_pending_if_fixed. Qed.
+Print Assumptions C13_unbond_refused_while_pending.
+
+(*    the whole life cycle computed on the model: bonded 10000 FX, removed, unbonding period passes, withdraws
+      10000 FX + rewards once; a penalised oracle (80 %) gets 2000 FX, 8000 FX burned; before maturity: refused *)
+Theorem C13_unbond_life_cycle : unbond_needs_entry = false ->
+  (let s := run w_init w_A in
+   let s' := exec s (Unbond 0) in
+   is_ok (step s (Unbond 0)) = true /\ bal_o s' 0 - bal_o s 0 = FX 10000 + 7 /\ bal_d s' 0 = 0 /\
+   recs s' 0 = None /\ by_bridger s' 100 = None /\ by_ext s' 200 = None /\ burned s' = 0 /\
+   step s' (Unbond 0) = Err e_notfound) /\
+  (let s := run w_init w_E in
+   let s' := exec s (Unbond 3) in
+   recs s 3 = Some (mkOracle 3 103 203 (FX 10000) 2 false 0 1) /\
+   is_ok (step s (Unbond 3)) = true /\ bal_o s' 3 - bal_o s 3 = FX 2000 + 5 /\ burned s' = FX 8000 /\
+   recs s' 3 = None /\ step s' (Unbond 3) = Err e_notfound) /\
+  step (run w_init w_B) (Unbond 0) = Err e_staking.
+Proof. exact unbond_life_cycle_if_fixed. Qed.
+Print Assumptions C13_unbond_life_cycle.
 
 (* 7. non-vacuity *)
 Theorem C13_nonvacuous :
